@@ -138,7 +138,7 @@ def scenario(pre: Preempt, where: str, offset: int, variant: str, raising: bool)
             closer.start()
             closer.join(0.01)
         pre.resume.set()
-        helper.join(5)
+        helper.join(30)
     else:
         # park the registering thread inside register(); meanwhile the monitor runs and thread 1 is found dead
         L('start 2')
@@ -152,6 +152,7 @@ def scenario(pre: Preempt, where: str, offset: int, variant: str, raising: bool)
         helper.start()
         reached = pre.at_point.wait(0.25)
         L('register 1')
+        h1: Optional[threading.Thread] = None
         if reached:
             # the parked thread may hold the lock: register thread 1 from a helper that may block until the resume
             h1 = threading.Thread(target=lambda: cb.register(t1))
@@ -164,12 +165,16 @@ def scenario(pre: Preempt, where: str, offset: int, variant: str, raising: bool)
             gates[2].set()
             t2.join(0.05)
         pre.resume.set()
-        helper.join(5)
+        helper.join(30)
+        if h1 is not None:
+            h1.join(30)          # registrations precede close(): the registration of thread 1 must have returned before close() is called
+            if h1.is_alive():
+                helper = h1      # reported below as 'register() never returned'
     gates[2].set()
-    t2.join(5)
+    t2.join(30)
     exc: Optional[str] = None
     if closer is not None:
-        closer.join(5)
+        closer.join(30)
         exc = early_exc
         if closer.is_alive():
             exc = 'close() never returned'
@@ -292,7 +297,7 @@ def xthread_task_case(pre: Preempt, offset: int, variant: str) -> dict:
         if closed.wait(0.25):
             msgs.append("close() returned while a registered task (registered from another thread during A's callback) was still running")
         rel_b.set()
-    if not closed.wait(6):
+    if not closed.wait(30):
         msgs.append('close() did not return although every registered task has ended and been called back' if sorted(called) == ['A', 'B']
                     else f'close() did not return (callbacks so far: {sorted(called)})')
         cb._active.clear()               # let the closer thread go
